@@ -127,6 +127,31 @@ func TestVerifConfMetrics(t *testing.T) {
 			report("metrics-group-replace", "metric_storage.(*MetricStorage).applyGroupOperations", fmt.Sprintf("got %v want %v", got, want))
 		}
 	}
+	// the label-name set of a metric grows while series of several groups are stored: every
+	// stored series survives with its value, its group and its label values (new labels empty)
+	for _, kind := range []string{"set", "add"} {
+		evaluated++
+		m := newStorage()
+		name := map[string]string{"set": "relabel_g", "add": "relabel_total"}[kind]
+		op := func(group string, v int, labels string) string {
+			return fmt.Sprintf(`{"group":"%s","name":"%s","action":"%s","value":%d,"labels":{%s}}`, group, name, kind, v, labels)
+		}
+		m.SendBatch(batch(op("g1", 1, `"a":"1"`)+"\n"+op("g1", 2, `"a":"2"`)), lbl)
+		m.SendBatch(batch(op("g2", 3, `"a":"3"`)), lbl)
+		m.SendBatch(batch(op("g3", 5, `"a":"5","b":"x"`)), lbl) // grows the label set
+		got := vcGather(t, m)
+		want := map[string]float64{name + "{a=1,b=,hook=h}": 1, name + "{a=2,b=,hook=h}": 2, name + "{a=3,b=,hook=h}": 3, name + "{a=5,b=x,hook=h}": 5}
+		if fmt.Sprint(got) != fmt.Sprint(want) {
+			report("metrics-relabel-keeps-series", "metric.(*ConstGaugeCollector).UpdateLabels", fmt.Sprintf("%s: after the label set grew: got %v want %v", kind, got, want))
+		}
+		// and the groups are still what they were: replacing g1 removes exactly its two series
+		m.SendBatch(batch(op("g1", 8, `"a":"8"`)), lbl)
+		got = vcGather(t, m)
+		want = map[string]float64{name + "{a=8,b=,hook=h}": 8, name + "{a=3,b=,hook=h}": 3, name + "{a=5,b=x,hook=h}": 5}
+		if fmt.Sprint(got) != fmt.Sprint(want) {
+			report("metrics-relabel-keeps-groups", "metric.(*ConstGaugeCollector).UpdateLabels", fmt.Sprintf("%s: group g1 replaced after the label set grew: got %v want %v", kind, got, want))
+		}
+	}
 	// validation predicate: exhaustive over the field lattice of one operation
 	{
 		f := 1.0
@@ -172,5 +197,5 @@ func TestVerifConfMetrics(t *testing.T) {
 			}
 		}
 	}
-	fmt.Printf("CONF-STATS evaluated=%d scope=hand-picked metric batches on the real MetricStorage + exhaustive field lattice of one operation (6 actions x group x name x value/buckets/set/add presence) for the validation predicate\n", evaluated)
+	fmt.Printf("CONF-STATS evaluated=%d scope=hand-picked metric batches on the real MetricStorage (grouped add/set, replace, expire, invalid batches, label set growing under stored series of three groups) + exhaustive field lattice of one operation (6 actions x group x name x value/buckets/set/add presence) for the validation predicate\n", evaluated)
 }
